@@ -126,6 +126,16 @@ Theorem C20_model_output_all_freed : forall input,
 Proof. exact run_prints_all_freed. Qed.
 Print Assumptions C20_model_output_all_freed.
 
+(* The drop path (scopes left normally, or a panic unwinding through the owner of the Sim /
+   runtime / result: bit 1 of the script's `order` field, which only the implementation runner
+   reads) is not an input of the release: same graph, same handles, same printed line.  So every
+   theorem above covers a simulation dropped by unwinding as well. *)
+Theorem C20_drop_path_irrelevant : forall pin stop arg o rest,
+  stop_state pin (stop :: arg :: (o + 2) :: rest)%N = stop_state pin (stop :: arg :: o :: rest)
+  /\ run_gen pin (stop :: arg :: (o + 2) :: rest)%N = run_gen pin (stop :: arg :: o :: rest).
+Proof. exact drop_path_irrelevant. Qed.
+Print Assumptions C20_drop_path_irrelevant.
+
 (* Non-vacuity (scripts: see coq/Own/Model.v; output: ok res nrem time created*4 once*4 notonce alive). *)
 Local Open Scope N_scope.
 
